@@ -23,7 +23,8 @@ _SRC_CHARS = "".join(sorted({c for p in (G.__file__, M.__file__) for c in Path(p
 JUNK = [None, True, 0, -1, 1.5, "", "x", [], [None], {}, {"x": 1}, {1: 2}]
 YAML_ONLY = [{None: 1}, {True: "x"}, {1.5: []}, datetime.date(2001, 12, 14), datetime.datetime(2001, 12, 14, 21, 59, 43), b"bytes", float("inf"), float("nan"),
              {"a": {2: 3}}, [{1: 2}], 2 ** 70, -(2 ** 70), "\x00", "{{", "}}", "{{a}}", "{{ Param.X }}", [[[]]], {"name": None}, [1, None, [2], 2.5, "3", True],
-             {"a", "b"}, frozenset(["x"]), {1, 2}, set()]
+             {"a", "b"}, frozenset(["x"]), {1, 2}, set(),
+             10 ** 400, -(10 ** 400), 10 ** 4000, 1e308, -1e308, 5e-324]
 META = list("{}[]:,-\"'#&*!|>%@`") + ["\t", "\n", " ", "a", "1"]
 
 
@@ -77,6 +78,14 @@ def module_global_names():
     import pydantic
     names = sorted(n for n in vars(mm) if isinstance(n, str))
     names += [n for n in dir(pydantic.BaseModel) if n not in names]
+    # parameter names of the constructors / class methods a document's keys are passed to as keyword arguments
+    import inspect
+    for fn in (pydantic.BaseModel.__init__, pydantic.BaseModel.parse_obj, pydantic.BaseModel.validate, pydantic.BaseModel.construct):
+        try:
+            names += [n for n in inspect.signature(fn).parameters if n not in names]
+        except (TypeError, ValueError):
+            pass
+    names += [n for n in ("self", "cls", "__root__", "__dict__", "__pydantic_self__", "data", "values", "kwargs", "args") if n not in names]
     return names
 
 
@@ -122,8 +131,21 @@ def _space(r, t="INT", comb=None):
     return {"parameterSpace": ps}
 
 
+def _with(d, **kw):
+    d = copy.deepcopy(d)
+    d.update(kw)
+    return d
+
+
+_UI = lambda ty, **ui: dict(_tmpl(), parameterDefinitions=[{"name": "P", "type": ty, "userInterface": dict({"control": "SPIN_BOX"}, **ui)}])  # noqa: E731
+
 # historical failing inputs (KNOWN_FINDINGS.txt, fixed:) and their neighbours: run first on every run
 CORPUS_DOCS = [
+    # fix e30adc4: a key that collides with a parameter of pydantic's constructor; integers too large for a float
+    ("job", _with(_tmpl(), __pydantic_self__=1)), ("job", _with(_tmpl(), **{"__pydantic_self__": None, "self": 1, "cls": 2})),
+    ("env", {"specificationVersion": "environment-2023-09", "environment": {"name": "E", "variables": {"A": "b"}}, "__pydantic_self__": 2}),
+    ("job", _UI("FLOAT", singleStepDelta=10 ** 400)), ("job", _UI("FLOAT", singleStepDelta=-(10 ** 400))), ("job", _UI("FLOAT", decimals=10 ** 400)),
+    ("job", _UI("INT", singleStepDelta=10 ** 400)), ("job", _with(_tmpl(), parameterDefinitions=[{"name": "P", "type": "FLOAT", "default": 10 ** 400, "minValue": 10 ** 399}])),
     _tmpl(**_space([1, None])), _tmpl(**_space([1, [2]])), _tmpl(**_space([1, 2.5])), _tmpl(**_space([{"a": 1}])), _tmpl(**_space([True, "x", 1.5])),
     _tmpl(**_space([1.5, None, [1]], t="FLOAT")), _tmpl(**_space([None], t="STRING")),
     {1: 2, "specificationVersion": "jobtemplate-2023-09"}, {"specificationVersion": "jobtemplate-2023-09", None: 1, "name": "n", "steps": []},
@@ -152,7 +174,10 @@ class C04(core.PropBase):
     def corpus_cases(self):
         out = []
         for d in CORPUS_DOCS:
-            for kind in ("job", "env"):
+            kinds = ("job", "env")
+            if isinstance(d, tuple):
+                kinds, d = (d[0],), d[1]
+            for kind in kinds:
                 out.append({"kind": kind, "doc": copy.deepcopy(d), "tag": "corpus"})
         return out
 
